@@ -26,6 +26,9 @@ func vEqObj(a, b core.Object) bool {
 	case core.Name:
 		y, ok := b.(core.Name)
 		return ok && x == y
+	case core.IndirectRef:
+		y, ok := b.(core.IndirectRef)
+		return ok && x == y
 	case core.Array:
 		y, ok := b.(core.Array)
 		if !ok || len(x) != len(y) {
